@@ -84,6 +84,14 @@ class ProgGen:
             return [self.w.unknown(q, t)]
         if r < 0.8:
             return [self.w.sys(self.pick(self.rnd.choice(PATH_CLASSES)), q, t)]
+        if r < 0.9 and self.composites:
+            # composite openers as stand-alone records (a window of one record)
+            x = self.rnd.random()
+            if x < 0.4:
+                return [self.w.vmf(q, t, self.rnd.choice([0, 0, 1]), self.rnd.randrange(1, 12))]
+            if x < 0.7:
+                return [self.w.launch(q, t)]
+            return [self.w.perf(q, t, self.rnd.random() < 0.5, self.rnd.random() < 0.5)]
         return [self.w.pexit(t, self.name32(), q)]
 
     def ord_single(self, t):
